@@ -497,13 +497,17 @@ Section Layout.
   Proof.
     assert (P : forall i, 0 < plane_bytes i w a h s).
     { intros i. pose proof (stride_ge_pw i) as (B1 & B2). subst S PW PH. cbv beta in *. unfold plane_bytes. nia. }
-    pose proof (P 0). pose proof (P 1). pose proof (P 2).
+    pose proof (P 0). pose proof (P 1). pose proof (P 2). clear P. clear S PW PH. clear Hs Hw Hh Ha.
+    assert (FIN : forall b0 b1 b2, 0 < b0 -> 0 < b1 -> 0 < b2 ->
+      (0 <= 0 /\ 0 + b0 <= b0) /\ (0 <= 0 /\ 0 + b0 <= b0 + b1 + b2) /\ (0 <= b0 /\ b0 + b1 <= b0 + b1 + b2) /\
+      (0 <= b0 + b1 /\ b0 + b1 + b2 <= b0 + b1 + b2) /\ 0 + b0 <= b0 /\ 0 + b0 <= b0 + b1 /\ b0 + b1 <= b0 + b1) by (intros; lia).
+    specialize (FIN _ _ _ H H0 H1). destruct FIN as (F1 & F2 & F3 & F4 & F5 & F6 & F7).
     split; [reflexivity|]. split; [reflexivity|]. split; [reflexivity|]. split.
-    - intros i Hi. unfold spec_off, spec_total, ncomp in *. destruct (s =? TJSAMP_GRAY).
-      + assert (i = 0) as -> by lia. cbn [Z.eqb]. lia.
-      + assert (i = 0 \/ i = 1 \/ i = 2) as [->|[->| ->]] by lia; cbn [Z.eqb]; lia.
-    - intros i j Hi Hij Hj. unfold spec_off, ncomp in *. destruct (s =? TJSAMP_GRAY); [lia|].
-      assert ((i = 0 /\ j = 1) \/ (i = 0 /\ j = 2) \/ (i = 1 /\ j = 2)) as [[-> ->]|[[-> ->]|[-> ->]]] by lia; cbn [Z.eqb]; lia.
+    - intros i Hi. unfold spec_off, spec_total, ncomp in *. revert Hi. destruct (s =? TJSAMP_GRAY); intros Hi.
+      + assert (i = 0) as -> by lia. exact F1.
+      + assert (i = 0 \/ i = 1 \/ i = 2) as [->|[->| ->]] by lia; cbn [Z.eqb]; assumption.
+    - intros i j Hi Hij Hj. unfold spec_off, ncomp in *. revert Hj. destruct (s =? TJSAMP_GRAY); intros Hj; [lia|].
+      assert ((i = 0 /\ j = 1) \/ (i = 0 /\ j = 2) \/ (i = 1 /\ j = 2)) as [[-> ->]|[[-> ->]|[-> ->]]] by lia; cbn [Z.eqb]; assumption.
   Qed.
 
   (* every sample (row r, column c) of plane i has its own address inside the plane's extent *)
@@ -534,7 +538,8 @@ Proof. repeat constructor. Qed.
 
 Definition unified_result (w a h s : Z) : ures :=
   if plane_fits 0 w a h s && (spec_pw 0 w s + (a - 1) <=? INT_MAX) then
-    if s =? TJSAMP_GRAY then ULayout [Some 0; None; None] [spec_stride 0 w a s; 0; 0]
+    if spec_pw 0 w s + a >? INT_MAX then UUB   (* pw0 + align == INT_MAX + 1: the intermediate of PAD overflows *)
+    else if s =? TJSAMP_GRAY then ULayout [Some 0; None; None] [spec_stride 0 w a s; 0; 0]
     else if (plane_bytes 0 w a h s >? INT_MAX) || (plane_bytes 1 w a h s >? INT_MAX) then UErr
     else ULayout [Some (spec_off 0 w a h s); Some (spec_off 1 w a h s); Some (spec_off 2 w a h s)]
                  [spec_stride 0 w a s; spec_stride 1 w a s; spec_stride 2 w a s]
@@ -562,7 +567,7 @@ Proof.
   rewrite !plane_width_spec, !plane_height_spec by assumption.
   unfold tjPlaneWidth, tjPlaneHeight. rewrite !plane_width_spec, !plane_height_spec by assumption.
   assert (N : 0 <? ncomp s = true) by (unfold ncomp; destruct (s =? TJSAMP_GRAY); reflexivity).
-  rewrite N. cbn [Z.leb andb].
+  rewrite N. change (0 <=? 0) with true. change (0 <=? 1) with true. cbn [andb].
   pose proof (spec_pw_bounds 0 w s Hs Hw) as [Bw _]. pose proof (spec_ph_bounds 0 h s Hs Hh) as [Bh _].
   pose proof (spec_pw_bounds 1 w s Hs Hw) as [Bw1 Bw10]. pose proof (spec_ph_bounds 1 h s Hs Hh) as [Bh1 Bh10].
   rewrite C1, C2, C3, C4, C5, C6, C7, C8, C9, C10. cbv beta.
@@ -579,10 +584,12 @@ Proof.
   pose proof (pad_guard_implies_stride_fits w k s Hs Hw Hk ltac:(lia)) as F0.
   assert (Y : spec_stride 0 w (2 ^ k) s <=? INT_MAX = true) by lia. rewrite Y. clear Y. cbn [andb].
   rewrite PAD_c_ok_iff by (unfold INT_MAX in *; lia).
+  destruct (spec_pw 0 w s + 2 ^ k >? INT_MAX) eqn:E4.
+  { assert (Y : spec_pw 0 w s + 2 ^ k <=? INT_MAX = false) by lia. rewrite Y. reflexivity. }
   assert (Y : spec_pw 0 w s + 2 ^ k <=? INT_MAX = true) by lia. rewrite Y. clear Y. cbn [negb].
   rewrite PAD_c_spec by lia. fold (spec_stride 0 w (2 ^ k) s).
   destruct (s =? TJSAMP_GRAY) eqn:Eg; [reflexivity|].
-  assert (N1 : 1 <? ncomp s = true) by (unfold ncomp; rewrite Eg; reflexivity). rewrite N1. cbn [Z.leb andb].
+  assert (N1 : 1 <? ncomp s = true) by (unfold ncomp; rewrite Eg; reflexivity). rewrite N1. cbn [andb].
   assert (Y : spec_pw 1 w s <=? INT_MAX = true) by lia. rewrite Y. clear Y.
   assert (Y : spec_ph 1 h s <=? INT_MAX = true) by lia. rewrite Y. clear Y.
   assert (Y : spec_pw 1 w s =? 0 = false) by lia. rewrite Y. clear Y.
@@ -615,4 +622,134 @@ Proof.
   destruct ((w <=? 0) || (a <? 1) || negb (IS_POW2_c a) || (h <=? 0)) eqn:G; [reflexivity|].
   destruct (IS_POW2_c a); cbn [negb] in G; [|lia].
   assert (s = TJSAMP_UNKNOWN) as -> by lia. reflexivity.
+Qed.
+
+(* ------------------------------------------------------------------ overflow checks, as equivalences *)
+Lemma plane_bytes_pos i w a h s : valid_samp s -> valid_dim w -> valid_dim h -> valid_align a -> 0 < plane_bytes i w a h s.
+Proof.
+  intros Hs Hw Hh Ha. pose proof (stride_ge_pw w a h s Hs Hw Hh Ha i) as (B1 & B2). cbv beta in *. unfold plane_bytes. nia.
+Qed.
+
+Lemma spec_total_pos w a h s : valid_samp s -> valid_dim w -> valid_dim h -> valid_align a -> 0 < spec_total w a h s.
+Proof.
+  intros Hs Hw Hh Ha. pose proof (plane_bytes_pos 0 w a h s Hs Hw Hh Ha). pose proof (plane_bytes_pos 1 w a h s Hs Hw Hh Ha).
+  pose proof (plane_bytes_pos 2 w a h s Hs Hw Hh Ha). unfold spec_total. destruct (s =? TJSAMP_GRAY); lia.
+Qed.
+
+Theorem plane_width_error_iff c w s : valid_dim w -> valid_samp s -> 0 <= c < ncomp s ->
+  (tj3YUVPlaneWidth c w s = 0 <-> spec_pw c w s > INT_MAX) /\
+  (spec_pw c w s <= INT_MAX -> tj3YUVPlaneWidth c w s = spec_pw c w s).
+Proof.
+  intros Hw Hs Hc. rewrite plane_width_spec by assumption.
+  assert (X : (0 <=? c) && (c <? ncomp s) = true) by lia. rewrite X.
+  pose proof (spec_pw_bounds c w s Hs Hw) as [B _].
+  destruct (spec_pw c w s <=? INT_MAX) eqn:E; split; try split; intros; try lia.
+Qed.
+
+Theorem plane_height_error_iff c h s : valid_dim h -> valid_samp s -> 0 <= c < ncomp s ->
+  (tj3YUVPlaneHeight c h s = 0 <-> spec_ph c h s > INT_MAX) /\
+  (spec_ph c h s <= INT_MAX -> tj3YUVPlaneHeight c h s = spec_ph c h s).
+Proof.
+  intros Hw Hs Hc. rewrite plane_height_spec by assumption.
+  assert (X : (0 <=? c) && (c <? ncomp s) = true) by lia. rewrite X.
+  pose proof (spec_ph_bounds c h s Hs Hw) as [B _].
+  destruct (spec_ph c h s <=? INT_MAX) eqn:E; split; try split; intros; try lia.
+Qed.
+
+(* the buffer size is the error value exactly when a plane dimension, a row stride or the total
+   leaves the C type that holds it; otherwise it is the sum of the padded planes *)
+Theorem bufsize_error_iff ulbits szbits w a h s :
+  valid_abi ulbits szbits -> valid_samp s -> valid_dim w -> valid_dim h -> valid_align a ->
+  (tj3YUVBufSize ulbits szbits w a h s = 0 <->
+     spec_pw 0 w s > INT_MAX \/ spec_ph 0 h s > INT_MAX \/ spec_stride 0 w a s > INT_MAX \/
+     (ulbits < 64 /\ spec_total w a h s > ULONG_MAX ulbits)) /\
+  (tj3YUVBufSize ulbits szbits w a h s <> 0 -> tj3YUVBufSize ulbits szbits w a h s = spec_total w a h s).
+Proof.
+  intros Habi Hs Hw Hh Ha. rewrite bufsize_spec by assumption. unfold bufsize_result, plane_fits, ulong_check.
+  pose proof (spec_total_pos w a h s Hs Hw Hh Ha).
+  destruct (spec_pw 0 w s <=? INT_MAX) eqn:E1, (spec_ph 0 h s <=? INT_MAX) eqn:E2, (spec_stride 0 w a s <=? INT_MAX) eqn:E3;
+    cbn [andb]; try (split; [split; intros; lia | intros; lia]).
+  destruct (ulbits <? 64) eqn:E4, (spec_total w a h s >? ULONG_MAX ulbits) eqn:E5; cbn [andb];
+    (split; [split; intros; lia | intros; lia]).
+Qed.
+
+Theorem planesize_error_iff ulbits szbits c w stride h s :
+  valid_abi ulbits szbits -> valid_samp s -> valid_dim w -> valid_dim h -> 0 <= c < ncomp s ->
+  INT_MIN < stride <= INT_MAX ->
+  exists v, tj3YUVPlaneSize ulbits szbits c w stride h s = Val v /\
+   (v = 0 <-> spec_pw c w s > INT_MAX \/ spec_ph c h s > INT_MAX \/
+              (ulbits < 64 /\ plane_size c w stride h s > ULONG_MAX ulbits)) /\
+   (v <> 0 -> v = plane_size c w stride h s).
+Proof.
+  intros Habi Hs Hw Hh Hc Hst. rewrite planesize_spec by (try assumption; lia).
+  assert (X : stride =? INT_MIN = false) by lia. rewrite X.
+  pose proof (spec_pw_bounds c w s Hs Hw) as [B _]. pose proof (spec_ph_bounds c h s Hs Hh) as [B' _].
+  assert (P : 0 < plane_size c w stride h s).
+  { unfold plane_size, eff_stride. destruct (stride =? 0); nia. }
+  unfold ulong_check.
+  destruct (spec_pw c w s <=? INT_MAX) eqn:E1, (spec_ph c h s <=? INT_MAX) eqn:E2; cbn [andb];
+    try (eexists; split; [reflexivity|]; split; [split; intros; lia | intros; lia]).
+  destruct (ulbits <? 64) eqn:E4, (plane_size c w stride h s >? ULONG_MAX ulbits) eqn:E5; cbn [andb];
+    (eexists; split; [reflexivity|]; split; [split; intros; lia | intros; lia]).
+Qed.
+
+(* on an ABI with a 64-bit unsigned long the size checks never fire: the sizes always fit *)
+Theorem sizes_fit_64 w a h s c stride :
+  valid_samp s -> valid_dim w -> valid_dim h -> valid_align a -> INT_MIN < stride <= INT_MAX ->
+  plane_fits 0 w a h s = true -> spec_total w a h s < 2 ^ 64 /\ plane_size c w stride h s < 2 ^ 64.
+Proof.
+  intros Hs Hw Hh Ha Hst F. destruct (valid_align_pow2 a Ha) as (k & Hk & ->).
+  pose proof (chroma_fits 1 w k h s Hs Hw Hh ltac:(lia) F) as F1.
+  pose proof (chroma_fits 2 w k h s Hs Hw Hh ltac:(lia) F) as F2.
+  pose proof (plane_bytes_bound 0 w k h s Hs Hw Hh ltac:(lia) F).
+  pose proof (plane_bytes_bound 1 w k h s Hs Hw Hh ltac:(lia) F1).
+  pose proof (plane_bytes_bound 2 w k h s Hs Hw Hh ltac:(lia) F2).
+  change (2 ^ 64) with 18446744073709551616. split.
+  - unfold spec_total. destruct (s =? TJSAMP_GRAY); lia.
+  - pose proof (chroma_fits c w k h s Hs Hw Hh ltac:(lia) F) as Fc. unfold plane_fits in Fc.
+    pose proof (spec_pw_bounds c w s Hs Hw) as [B _]. pose proof (spec_ph_bounds c h s Hs Hh) as [B' _].
+    unfold plane_size, eff_stride. unfold INT_MIN, INT_MAX in *. destruct (stride =? 0); nia.
+Qed.
+
+(* ------------------------------------------------------------------ scaled dimensions *)
+Definition sf_ok (p : Z * Z) : bool :=
+  (1 <=? fst p) && (fst p <=? 15) && (1 <=? snd p) && (snd p <=? 8) && ((DCTSIZE * fst p) mod snd p =? 0).
+
+Lemma sf_tbl_ok : forallb sf_ok sf_tbl = true.
+Proof. vm_compute. reflexivity. Qed.
+
+Lemma sf_tbl_length : Z.of_nat (length sf_tbl) = NUMSF.
+Proof. reflexivity. Qed.
+
+Theorem scaled_dim_spec num denom dim : In (num, denom) sf_tbl -> 0 <= dim -> dim * num + denom - 1 <= INT_MAX ->
+  scaled_dim dim num denom = Val (cdiv (dim * num) denom) /\
+  (cdiv (dim * num) denom - 1) * denom < dim * num <= cdiv (dim * num) denom * denom /\
+  dtp_dctsize num denom * denom = DCTSIZE * num.
+Proof.
+  intros Hin Hd Hfit. pose proof (proj1 (forallb_forall _ _) sf_tbl_ok _ Hin) as F. unfold sf_ok in F. cbn [fst snd] in F.
+  assert (Hn : 1 <= num <= 15) by lia. assert (Hde : 1 <= denom <= 8) by lia.
+  assert (Hm : (DCTSIZE * num) mod denom = 0) by lia. clear F.
+  split; [|split].
+  - unfold scaled_dim.
+    assert (OK : TJSCALED_c_ok dim num denom = true) by (unfold TJSCALED_c_ok, in_int, INT_MIN, INT_MAX in *; nia).
+    rewrite OK. unfold TJSCALED_c. rewrite Z.quot_div_nonneg by nia. reflexivity.
+  - apply cdiv_spec. lia.
+  - unfold dtp_dctsize. rewrite Z.quot_div_nonneg by (unfold DCTSIZE; lia).
+    pose proof (Z.div_mod (DCTSIZE * num) denom ltac:(lia)). lia.
+Qed.
+
+(* every JPEG dimension (<= 65535) can be scaled by every factor of the table without overflow *)
+Corollary scaled_dim_jpeg num denom dim : In (num, denom) sf_tbl -> 0 <= dim <= 65535 ->
+  scaled_dim dim num denom = Val (cdiv (dim * num) denom).
+Proof.
+  intros Hin Hd. pose proof (proj1 (forallb_forall _ _) sf_tbl_ok _ Hin) as F. unfold sf_ok in F. cbn [fst snd] in F.
+  apply scaled_dim_spec; try assumption; unfold INT_MAX; nia.
+Qed.
+
+(* ------------------------------------------------------------------ alignment predicate *)
+Theorem is_pow2_iff a : 1 <= a -> (IS_POW2_c a = true <-> exists k, 0 <= k /\ a = 2 ^ k).
+Proof.
+  intros Ha. unfold IS_POW2_c. split.
+  - intros H. apply Z.eqb_eq in H. exists (Z.log2 a). split; [apply Z.log2_nonneg|apply is_pow2_inv; assumption].
+  - intros (k & Hk & ->). rewrite is_pow2_pow2 by assumption. reflexivity.
 Qed.
